@@ -464,8 +464,8 @@ func c09Units(ctx *core.Ctx) []core.Unit {
 				scal := asScalars(mc.ss, true)
 				body = func() string {
 					var p bandersnatch.PointProj
-					digits, _ := bandersnatch.VerifPartitionScalars(scal, uint64(s.c), true, 2)
-					bandersnatch.VerifMsmInner(&p, s.c, aff, digits, s.spl)
+					digits, _ := bandersnatch.VerifPartitionScalars(append([]fr.Element(nil), scal...), uint64(s.c), true, 2)
+					bandersnatch.VerifMsmInner(&p, s.c, append([]bandersnatch.PointAffine(nil), aff...), digits, s.spl)
 					e := banderwagon.VerifFromProj(p)
 					return fmt.Sprintf("%x", e.Bytes())
 				}
@@ -473,7 +473,7 @@ func c09Units(ctx *core.Ctx) []core.Unit {
 				scal := asScalars(mc.ss, true)
 				body = func() string {
 					var res banderwagon.Element
-					out, err := res.MultiExp(mc.pts, scal, banderwagon.MultiExpConfig{NbTasks: s.nt, ScalarsMont: true})
+					out, err := res.MultiExp(append([]banderwagon.Element(nil), mc.pts...), append([]fr.Element(nil), scal...), banderwagon.MultiExpConfig{NbTasks: s.nt, ScalarsMont: true})
 					if err != nil {
 						return "error " + err.Error()
 					}
